@@ -6,7 +6,7 @@ import signal as _signal
 from .common import new_kernel, finish, V, POLICIES, state, seams, H
 from . import poolsim
 from . import pooltask as T
-from . import pool_oracles as OR
+from . import pool_world as OR
 from . import pool_gen as G
 
 RUNS_PER_FORK = 1
@@ -53,7 +53,8 @@ def execute(case, seed, choices=None):
                           'max_steps': case.get('max_steps', 120000),
                           'pipe_cap': case.get('pipe_cap', 65536), 'short_io': case.get('short_io', False),
                           'sleep_jitter': case.get('sleep_jitter', 0.0),
-                          'group_leaders': pc.get('group_leaders', False), 'log_cap': 400000},
+                          'group_leaders': pc.get('group_leaders', False), 'log_cap': 400000,
+                          'log_sleeps': True},
                    choices)
     poolsim.install_pool()
     poolsim.setup_kernel(k)
@@ -64,6 +65,7 @@ def execute(case, seed, choices=None):
     def on_child(child, process_obj):
         W.on_worker_started(child, process_obj)
     k.cfg['_on_child'] = on_child
+    k.cfg['_on_pass_end'] = W.on_pass_end
 
     def host_term(signum, frame):
         k.record('host-signal', int(signum))
@@ -78,6 +80,7 @@ def execute(case, seed, choices=None):
                   threads=pc.get('threads', True), putlocks=pc.get('putlocks', False),
                   allow_restart=pc.get('allow_restart', False),
                   max_memory_per_child=pc.get('max_memory_per_child'),
+                  enable_timeouts=pc.get('enable_timeouts', False),
                   on_process_exit=T.on_exit, context=ctx,
                   semaphore=poolsim.make_putlock(pc['processes']))
         cls = P.Pool
@@ -108,5 +111,10 @@ def execute(case, seed, choices=None):
     k.fault_hook = W.fault_hook
     k.spawn_actor(k.root, user0, 'P0.user', main=True)
     k.run()
+    try:
+        if W.pool is not None:
+            W.pool._terminate.cancel()      # never let the real interpreter exit run it
+    except Exception:     # noqa
+        pass
     viol, nontrivial = W.judge()
     return finish(k, case, viol, nontrivial, {'subjects': W.subjects})
